@@ -5,6 +5,7 @@
  *   k6_threads --items <file> --script <file> --mode interleave            ops in file order, one thread
  *   k6_threads --items <file> --script <file> --mode solo --only <m>       only manager m exists and runs
  *   k6_threads --items <file> --script <file> --mode threads --seed <n>    one thread per manager, randomised schedule
+ *   ... --mode interleave|threads --reloc    every manager is used through a relocated copy of its idle block
  *   k6_threads --sessrace <threads> <calls per thread>                      concurrent imb_set_session on private managers
  *   k6_threads --initrace <threads> <seconds>                              concurrent creation of private managers
  *   k6_threads --witness [--iters N]                                       imb_get_errno() fall-back probes
@@ -469,6 +470,8 @@ load_script(const char *path, const int only)
         return 0;
 }
 
+static int g_reloc;
+
 static void
 create_mgr(struct mgrctx *c, const int idx)
 {
@@ -481,6 +484,30 @@ create_mgr(struct mgrctx *c, const int idx)
         if (imb_get_errno(c->mgr) != 0) {
                 fprintf(stderr, "k6: init of manager %d failed: %d\n", idx, imb_get_errno(c->mgr));
                 exit(2);
+        }
+        if (g_reloc) {
+                /* --reloc: the manager that is used is a relocated copy of the idle, initialised one: the whole block is
+                 * copied to fresh memory and fixed up with imb_set_pointers_mb_mgr(copy, flags, 0) (the documented way
+                 * of attaching to a manager block without resetting it); the original block stays allocated but is
+                 * overwritten with a pattern, so a copy that still reaches into it (a pointer that was not re-derived:
+                 * state shared between two manager blocks) computes with garbage instead of silently agreeing */
+                const size_t sz = imb_get_mb_mgr_size();
+                void *blk = NULL;
+
+                if (posix_memalign(&blk, 64, sz) != 0) {
+                        fprintf(stderr, "k6: posix_memalign failed\n");
+                        exit(2);
+                }
+                memcpy(blk, c->mgr, sz);
+                IMB_MGR *old = c->mgr;
+                IMB_MGR *nw = imb_set_pointers_mb_mgr(blk, c->flags, 0);
+
+                if (nw == NULL) {
+                        fprintf(stderr, "k6: imb_set_pointers_mb_mgr(copy) failed\n");
+                        exit(2);
+                }
+                memset(old, 0xA5, sz);
+                c->mgr = nw;
         }
         c->rng = 0x1234 + (uint64_t) idx * 977;
         for (unsigned i = 0; i < sizeof(c->buf); i++)
@@ -858,6 +885,8 @@ main(int argc, char **argv)
                         only = atoi(argv[++i]);
                 else if (!strcmp(argv[i], "--seed") && i + 1 < argc)
                         g_seed = strtoull(argv[++i], NULL, 0);
+                else if (!strcmp(argv[i], "--reloc"))
+                        g_reloc = 1;
                 else if (!strcmp(argv[i], "--witness"))
                         do_witness = 1;
                 else if (!strcmp(argv[i], "--sessrace") && i + 2 < argc) {
